@@ -158,7 +158,7 @@ _t('C05', 'Theorems with no hypothesis on operands or bound (Z arithmetic): aln/
           'count_true (C05_aln … C05_eq), and the language-level mapping of <, > and of every literal n : N incl. the clamp for n >= 2^63 (C05_lang). '
           'Correspondence: exhaustive operand lists over the 16 two-variable functions x bounds -3..6, list-vs-list grids, random lists with bounds at '
           '+-len and at the i64 limits. The language-level half is additionally exercised by the C01 suites.')
-_t('C06', 'Theorems: exact characterisation of the library iterator fp (C06_fp: the first iterate that t maps to itself); the substitution/scoping lemma for fixed-point names with both shadowing cases (C06_scope); a syntactic criterion for monotonicity (C06_lfp_positive / C06_gfp_positive, from mono_pos): for EVERY fixed-point-free body in which every free occurrence of X has positive polarity - under and/or/if-branches/quantifiers/at-least counting/an even number of negations - evaluation of lfp X # T / gfp X # T terminates at a reduced ordered r that is a fixed point of the body and below every pre-fixed point / above every post-fixed point among all denotations; the same for semantically monotone fix-free bodies (C06_lfp, C06_gfp). Nested fixed points are covered by the correspondence only. '
+_t('C06', 'Theorems: exact characterisation of the library iterator fp (C06_fp: the first iterate that t maps to itself); the substitution/scoping lemma for fixed-point names with both shadowing cases (C06_scope); a syntactic criterion for monotonicity (C06_lfp_positive / C06_gfp_positive, from mono_pos): for EVERY fixed-point-free body in which every free occurrence of X has positive polarity - under and/or/if-branches/quantifiers/at-least counting/an even number of negations - evaluation of lfp X # T / gfp X # T terminates at a reduced ordered r that is a fixed point of the body and below every pre-fixed point / above every post-fixed point among all denotations; the same for semantically monotone fix-free bodies (C06_lfp, C06_gfp). NESTED and MIXED fixed points: when every fixed-point binder of the formula (inner ones included) binds a name that is positive in its own body (posfix), the meaning is monotone / antitone in every name of positive / negative polarity in every environment (C06_monotone, by comparing the two inner iterations through the fixed point reached by the other one), evaluation of the whole formula terminates (C06_terminates, by induction on size with the inner iteration of FixLang) and lfp X # T / gfp X # T end at the least / greatest fixed point of the body (C06_lfp_nested, C06_gfp_nested); shadowing is part of the criterion (an inner binder on X ends X\'s scope). '
           'for fixed-point names (C06_scope), and for fix-free monotone bodies termination of evaluation at a reduced ordered r that is a fixed point and '
           'below every pre-fixed point / above every post-fixed point among all denotations (C06_lfp, C06_gfp). Correspondence for the iterator: fp programs '
           'over 3 variables with constant, chain, identity, negation (divergent) and random monotone / arbitrary bodies, some nested; language-level fixed points are exercised by the C01 suites.')
